@@ -20,6 +20,7 @@ from persim.landscapes.visuals import plot_landscape_simple
 from persim.persistent_entropy import persistent_entropy
 
 from ..core import Clause, Violation, close
+from ..strategies import dict_of
 from . import _graph as G
 from . import _img as I
 
@@ -342,7 +343,7 @@ def i_death(d, o):
 
 INF_ENTRIES = {"entropy_inf": i_entropy, "plot_diagrams_inf": i_plot, "bottleneck_inf": i_bottleneck, "wasserstein_inf": i_wasserstein,
                "approx_landscape_inf": i_approx, "death_vector_inf": i_death}
-INF_OPTS = st.fixed_dictionaries({"keep": st.booleans(), "val": st.sampled_from([50.0, 20.0]), "normalize": st.booleans(), "lifetime": st.booleans(),
+INF_OPTS = dict_of({"keep": st.booleans(), "val": st.sampled_from([50.0, 20.0]), "normalize": st.booleans(), "lifetime": st.booleans(),
                                   "twice": st.booleans(), "num_steps": st.sampled_from([10, 25])})
 
 ALL3 = ("float", "int", "list", "float32", "uint8", "int16", "fortran", "strided", "readonly")
@@ -363,21 +364,21 @@ BAD_INPUTS = {"nan_birth": lambda: np.array([[float("nan") if i == 4 else float(
               "born_after_dying": lambda: np.array([[1.0, 0.0]]), "none": lambda: None, "three_columns_nan": lambda: np.array([[0.0, 1.0, float("nan")]])}
 
 OPTS = {
-    "bottleneck": st.fixed_dictionaries({"matching": st.booleans()}), "wasserstein": st.fixed_dictionaries({"matching": st.booleans()}),
-    "heat": st.fixed_dictionaries({"sigma": st.sampled_from([0.4, 1.0, 10.0])}), "sliced_wasserstein": st.fixed_dictionaries({"M": st.sampled_from([1, 10, 50])}),
-    "persistent_entropy": st.fixed_dictionaries({"single": st.booleans(), "normalize": st.booleans()}),
-    "imager_transform": st.fixed_dictionaries({"single": st.booleans(), "skew": st.booleans(), "weight": st.sampled_from(["persistence", "linear_ramp"]),
+    "bottleneck": dict_of({"matching": st.booleans()}), "wasserstein": dict_of({"matching": st.booleans()}),
+    "heat": dict_of({"sigma": st.sampled_from([0.4, 1.0, 10.0])}), "sliced_wasserstein": dict_of({"M": st.sampled_from([1, 10, 50])}),
+    "persistent_entropy": dict_of({"single": st.booleans(), "normalize": st.booleans()}),
+    "imager_transform": dict_of({"single": st.booleans(), "skew": st.booleans(), "weight": st.sampled_from(["persistence", "linear_ramp"]),
                                                "wp": st.just({}), "kernel": st.sampled_from(["gaussian", "uniform"]), "kp": st.just({}), "narrow": st.booleans()}),
-    "imager_fit_transform": st.fixed_dictionaries({"single": st.booleans(), "skew": st.booleans(), "pixel": st.sampled_from([1.0, 0.5, 0.7])}),
-    "imager_fit": st.fixed_dictionaries({"single": st.booleans(), "skew": st.booleans(), "pixel": st.sampled_from([1.0, 0.3])}),
-    "imager_plots": st.fixed_dictionaries({"skew": st.booleans()}), "persimage_transform": st.fixed_dictionaries({"single": st.booleans(), "spread": st.sampled_from([1.0, 0.5])}),
-    "exact_landscape": st.fixed_dictionaries({"hom_deg": st.sampled_from([0, 1])}), "approx_landscape": st.fixed_dictionaries({"hom_deg": st.sampled_from([0, 1]), "num_steps": st.sampled_from([10, 30])}),
-    "landscaper": st.fixed_dictionaries({"hom_deg": st.sampled_from([0, 1]), "flatten": st.booleans(), "start": st.sampled_from([None, None, 0.0, 1.0, 2.0]),
+    "imager_fit_transform": dict_of({"single": st.booleans(), "skew": st.booleans(), "pixel": st.sampled_from([1.0, 0.5, 0.7])}),
+    "imager_fit": dict_of({"single": st.booleans(), "skew": st.booleans(), "pixel": st.sampled_from([1.0, 0.3])}),
+    "imager_plots": dict_of({"skew": st.booleans()}), "persimage_transform": dict_of({"single": st.booleans(), "spread": st.sampled_from([1.0, 0.5])}),
+    "exact_landscape": dict_of({"hom_deg": st.sampled_from([0, 1])}), "approx_landscape": dict_of({"hom_deg": st.sampled_from([0, 1]), "num_steps": st.sampled_from([10, 30])}),
+    "landscaper": dict_of({"hom_deg": st.sampled_from([0, 1]), "flatten": st.booleans(), "start": st.sampled_from([None, None, 0.0, 1.0, 2.0]),
                                          "stop": st.sampled_from([None, None, 12.0, 9.0, 7.0])}), "death_vector": st.just({}),
-    "exact_ops": st.fixed_dictionaries({"p": st.sampled_from([1, 2, 2.5])}), "approx_ops": st.fixed_dictionaries({"p": st.sampled_from([1, 2, 3.5])}),
-    "plot_diagrams": st.fixed_dictionaries({"lifetime": st.booleans(), "legend": st.booleans(), "labels": st.sampled_from(["none", "full", "short", "str"]),
-                                            "matching": st.booleans()}), "matching_plots": st.fixed_dictionaries({"kind": st.sampled_from(["b", "w"])}),
-    "kernels_weights": st.fixed_dictionaries({"cov": st.sampled_from([0.0, 0.5, 1.35])}),
+    "exact_ops": dict_of({"p": st.sampled_from([1, 2, 2.5])}), "approx_ops": dict_of({"p": st.sampled_from([1, 2, 3.5])}),
+    "plot_diagrams": dict_of({"lifetime": st.booleans(), "legend": st.booleans(), "labels": st.sampled_from(["none", "full", "short", "str"]),
+                                            "matching": st.booleans()}), "matching_plots": dict_of({"kind": st.sampled_from(["b", "w"])}),
+    "kernels_weights": dict_of({"cov": st.sampled_from([0.0, 0.5, 1.35])}),
 }
 
 
